@@ -37,6 +37,16 @@ HProg(a, b, st, dir, base, mod, show) ==
         <<If(Bin(">", V("N"), I(0)), <<Let("D", I(0))>>, <<Let("D", V("I"))>>)>>),
      Let("I", I(0)) >>
 
+\* the body moves the control variable (up, down, beyond either bound); the loop ends as soon as the
+\* next value leaves [first, limit] on the side the loop is heading to
+MBody(delta) ==
+  << Let("N", Bin("+", V("N"), I(1))), PutS(<<V("I"), Str(" ")>>),
+     If(Bin("==", V("N"), I(2)), <<Let("I", Bin("+", V("I"), I(delta)))>>, <<>>),
+     If(Bin(">=", V("N"), I(6)), <<Break>>, <<>>) >>
+MProg(a, b, st, dir, delta) ==
+  << Let("N", I(0)), Let("I", I(77)), For("I", a, b, st, dir, MBody(delta)), PrintS(<<Str("|"), V("N"), Str(" "), V("I")>>) >>
+ModProgs == {MProg(I(a), I(b), st, d, delta) : a \in {0, 5, 8}, b \in {0, 5, 8}, st \in {NoExpr, I(2), I(3)}, d \in Dirs, delta \in {-20, -4, -1, 1, 4, 20}}
+
 HeaderProgs ==
   {HProg(Small[i], Small[j], Steps[s], d, I(0), FALSE, TRUE) : i \in DOMAIN Small, j \in DOMAIN Small, s \in DOMAIN Steps, d \in Dirs}
   \cup {HProg(Small[i], Small[j], NoExpr, d, I(0), TRUE, TRUE) : i \in DOMAIN Small, j \in DOMAIN Small, d \in Dirs}
@@ -70,6 +80,18 @@ AProgs ==
       PrintS(<<Mem(Mem(V("T"), "at", <<I(0)>>), "at", <<I(1)>>), Mem(Mem(V("T"), "at", <<I(1)>>), "at", <<I(0)>>)>>) >>
      : d \in Dirs}
 
+NestedForall ==
+  { << Let("T", TabOf(<<1, 2>>)),
+       Forall("E", V("T"), d1, <<Forall("F", V("T"), d2, <<PutS(<<V("E"), V("F"), Str(" ")>>)>> \o x)>>),
+       PrintS(<<Str("|")>>), Let("E", Str("free")), Let("F", Str("free")), Do(Mem(V("T"), "concat", <<I(3)>>)),
+       Forall("F", V("T"), "auto", <<Let("F", Bin("*", V("F"), I(2)))>>), Forall("E", V("T"), "auto", <<PutS(<<V("E"), Str(" ")>>)>>) >>
+      : d1 \in Dirs, d2 \in Dirs, x \in {<<>>, <<Break>>, <<Continue>>, <<If(Bin("==", V("F"), I(2)), <<Break>>, <<>>)>>} }
+  \cup
+  { << Let("T", Call("tab", <<I(2), TabOf(<<1, 2>>)>>)),
+       Forall("R", V("T"), "auto", <<Forall("E", V("R"), d, <<PutS(<<V("E")>>), Let("E", Bin("+", V("E"), I(1)))>>), Forall("G", V("T"), "auto", <<PutS(<<Str(".")>>)>>)>>),
+       Let("R", I(0)), Let("E", I(0)), Let("G", I(0)),
+       PrintS(<<Mem(Mem(V("T"), "at", <<I(1)>>), "at", <<I(1)>>)>>), Do(Mem(V("T"), "delete", <<I(0)>>)) >> : d \in Dirs }
+
 (* ------------------------------ nestings ------------------------------ *)
 CLeaves == << <<Break>>, <<Continue>>, <<Return(I(9))>>, <<Return(NoExpr)>>,
               <<Begin(<<RaiseS("E1")>>, <<When("E1", <<Break>>)>>)>>,
@@ -86,7 +108,7 @@ NProbe == <<Break, For("J", I(1), I(3), NoExpr, "auto", <<PutS(<<V("J")>>)>>), P
             Do(Mem(V("TT"), "put", <<I(0), I(5)>>)), P("ok")>>
 
 VARIABLE p
-Init == p \in {[kind |-> "H", m |-> x] : x \in HeaderProgs} \cup {[kind |-> "A", m |-> x] : x \in AProgs}
+Init == p \in {[kind |-> "H", m |-> x] : x \in HeaderProgs \cup ModProgs} \cup {[kind |-> "A", m |-> x] : x \in AProgs \cup NestedForall}
               \cup {[kind |-> "N", m |-> NMain(x)] : x \in NShapes}
 Next == UNCHANGED p
 Scenario(q) ==
